@@ -7,14 +7,19 @@ LEVEL = "proof"
 MANIFEST = dict(
     level="proof",
     text=("Lean 4 theorems over an executable byte-level model of the WAL pre-scan (_last_fix_and_reset_points) and roll-forward "
-          "(_rollforward_exl/_recover_wl): for every well-formed log and every cut length recovery succeeds in the state of a savepoint "
-          "all of whose predecessors survive and not an older one than the last intact savepoint, a half-written record is never applied, "
-          "and with checksums on a changed segment or payload is rejected or harmless; the model is tied to the code by recovering real "
-          "logs (produced by real iwkv histories, incl. online-backup logs with reset marks) cut at every record boundary/inside every record "
-          "type and bit-flipped, through the real iwkv_open, comparing main-file images with the model and contents with recorded savepoint states"),
+          "(_rollforward_exl/_recover_wl): for every log that starts with a separator and closes its segments at savepoints and every cut "
+          "length, recovery succeeds in the state of a savepoint all of whose predecessors survive and not an older one than the last intact "
+          "savepoint (recover_cut; recover_cut_reset for logs with reset marks from an online backup); a record either loop accepts lies "
+          "completely in the file (applied_record_complete); with checksums on, changed bytes under a segment or payload checksum make "
+          "recovery fail or leave an earlier savepoint state (crc_detects_partial, crc_detects_payload_partial, explicit hypotheses). The "
+          "model is tied to the code by recovering real logs (real iwkv histories incl. online-backup logs with reset marks and backup images) "
+          "cut at/inside every record type and bit-flipped, through the real iwkv_open, plus synthetic logs through _rollforward_exl alone: "
+          "main-file images are compared with the model, contents with recorded savepoint states (python dict reference); the theorem "
+          "hypotheses are evaluated on every real log"),
     note=("trusted: Lean kernel, translator, harness/generators, gcc+ASan/UBSan, page-cache semantics of MAP_SHARED; modelled not verified: "
-          "C control flow of the two loops; crc32 is abstract in the theorems (collision-freeness on the changed bytes is a hypothesis); "
-          "the separator header itself is not covered by a checksum"),
+          "C control flow of the two loops; crc32 is abstract in the theorems (the changed bytes must hash differently, stored checksum non-zero); "
+          "the separator header itself is not covered by a checksum; writer side checked per log, not proved; tree = /repo + fix commits "
+          "4f5efbe b993ce2 0cbf31f 329967d; open finding F38 (corruption before the last reset mark of a backup-time log)"),
     technique="Lean 4 proof over executable model + differential correspondence (C harness vs compiled Lean driver)")
 MODULE = "IwModel.Props.C05"
 THEOREMS = ["IwModel.C05.recover_cut", "IwModel.C05.applied_record_complete", "IwModel.C05.crc_detects_partial", "IwModel.C05.crc_detects_payload_partial",
@@ -671,15 +676,27 @@ def run(ctx):
 
 
 def replay(ctx, obj):
+    """Re-runs the history of a recorded violation in a fresh scratch directory, then the damaged recovery itself."""
+    import re
     h = build(ctx)
     rp = obj["replay"]
-    wd = C.scratch()
-    rc, o, e = C.run_lines([h], rp["history"], timeout=300)
-    print("\n".join(o[-5:]))
-    if "op" in rp:
-        hist = rp["history"]
-        snap = [l for l in hist if l.startswith(("snap ", "backup "))]
-        print("re-run the history above, then:", rp["op"])
-    print(e[-2000:])
+    hist = rp.get("history") or rp.get("ops") or []
+    wd = os.path.join(C.scratch(), "replay")
+    os.makedirs(wd, exist_ok=True)
+    m = re.search(r"open (\S+)/[^/ ]+\.db ", hist[0] + " ") if hist else None
+    old = m.group(1) if m else None
+    fix = (lambda s: s.replace(old, wd)) if old else (lambda s: s)
+    lines = [fix(l) for l in hist]
+    op = rp.get("op")
+    if op:
+        tag = (rp.get("log") or "").split("/")
+        base = os.path.join(wd, tag[0]) if tag and tag[0] else None
+        if base:
+            pre, wal = (base + ".bpre", base + ".bwal") if len(tag) > 1 and tag[1] == "image" else (base + ".pre", base + ".wal")
+            lines += ["load %s %s" % (pre, wal), re.sub(r"^(rec|roll) \S+", lambda mm: mm.group(1) + " " + os.path.join(wd, "work.db"), op)]
+    rc, o, e = C.run_lines([h], lines, timeout=300)
+    print("\n".join(o[-4:]))
+    print(e[-1500:])
+    print("recorded:", rp.get("impl"))
     ctx.case("replay")
     ctx.case("replay2")
